@@ -29,6 +29,9 @@ THEOREMS = [
     'Sbepp.Properties.C18.traits_derived_element_offset',
     'Sbepp.Properties.C18.traits_derived_field_offset',
     'Sbepp.Properties.C18.traits_derived_default_range',
+    'Sbepp.Properties.C18.leading_zeros_keep_value',
+    'Sbepp.Properties.C18.explicit_literal_grid',
+    'Sbepp.Properties.C18.enum_value_grid',
     'Sbepp.Properties.C18.children_lists_in_schema_order',
     'Sbepp.Properties.C18.tags_distinct',
     'Sbepp.Properties.C18.predicates_classify',
@@ -93,8 +96,61 @@ def enrich(rng, g, sch):
     return sch
 
 
+SIGNED = {'int8': 8, 'int16': 16, 'int32': 32, 'int64': 64}
+# texts with superfluous leading zeros: all digits octal (pasted verbatim they would silently be another number) ...
+GRID_OCTAL = ['-010', '-0100', '-0777', '-07', '-00', '010', '0000017', '-000064']
+# ... and with a digit 8/9 (pasted verbatim they would not compile)
+GRID_NONOCTAL = ['-08', '-019', '-0089', '-0098', '-00128', '09', '0080']
+
+
+def grid_schema(texts, tag):
+    """deterministic boundary schema: for every signed width, every text that fits it as explicit minValue,
+    maxValue, nullValue, as value of a constant type and as enum validValue; all of them used by fields
+    (constants through their accessors)"""
+    hdr = {'k': 'composite', 'name': 'messageHeader', 'elems': [
+        {'k': 'type', 'name': n, 'prim': 'uint16'} for n in ('blockLength', 'templateId', 'schemaId', 'version')]}
+    types = [hdr]
+    fields = []
+    n = [0]
+
+    def field(ty, **kw):
+        n[0] += 1
+        fields.append(dict({'name': 'f%d' % n[0], 'id': n[0], 'type': ty}, **kw))
+    for prim, w in SIGNED.items():
+        fit = [t for t in texts if -2 ** (w - 1) <= int(t) < 2 ** (w - 1)]
+        if prim == 'int64':
+            fit = fit + (['-07777777777777777777', '-01234567012345670123', '0007000000000000000000']
+                         if tag == 'oct' else ['-009223372036854775808', '-09223372036854775807',
+                                               '009223372036854775807', '-0009223372036854775798'])
+        seen = set()
+        vals = []
+        for i, t in enumerate(fit):
+            base = '%s_%s_%d' % (tag, prim, i)
+            types.append({'k': 'type', 'name': 'Mn_' + base, 'prim': prim, 'min': t})
+            types.append({'k': 'type', 'name': 'Mx_' + base, 'prim': prim, 'max': t})
+            types.append({'k': 'type', 'name': 'Nu_' + base, 'prim': prim, 'presence': 'optional', 'null': t,
+                          'min': t, 'max': t})
+            types.append({'k': 'type', 'name': 'K_' + base, 'prim': prim, 'presence': 'constant', 'const': t})
+            for pfx in ('Mn_', 'Mx_', 'Nu_', 'K_'):
+                field(pfx + base)
+            if int(t) not in seen:
+                seen.add(int(t))
+                vals.append({'name': 'V%d' % i, 'value': t})
+        types.append({'k': 'enum', 'name': 'E_%s_%s' % (tag, prim), 'enc': prim, 'values': vals})
+        field('E_%s_%s' % (tag, prim))
+        for v in vals:
+            field('E_%s_%s' % (tag, prim), presence='constant', valueRef='E_%s_%s.%s' % (tag, prim, v['name']))
+        if w <= 32:
+            field('int64', presence='constant', valueRef='E_%s_%s.%s' % (tag, prim, vals[0]['name']))
+    return {'package': 'vs', 'id': 18, 'version': 1, 'byteOrder': 'littleEndian', 'types': types,
+            'messages': [{'name': 'Grid', 'id': 1, 'fields': fields, 'groups': [], 'datas': []}]}
+
+
 def gen_cases(chk, run):
     cases = []
+    for j, (texts, tag) in enumerate(((GRID_OCTAL, 'oct'), (GRID_NONOCTAL, 'dec'))):
+        cases.append(wire.SchemaCase(chk, run.nschemas + j, grid_schema(texts, tag), run.workdir))
+        run.feat['grid.' + tag] = 1
     for i in range(run.nschemas):
         rng = random.Random((chk.seed * 1000003 + i) * 31 + run.salt)
         g = S.Gen(rng, max_depth=run.max_depth, hdr_variants=run.hdr_variants)
@@ -202,7 +258,7 @@ def run(chk):
     n = 120 if chk.tier == 'thorough' else 20
     configs = W.configs_for(chk.tier)
     run = W.WireRun(chk, n, configs, seed_salt=18)
-    stats = {'entities': 0, 'traits_compared': 0, 'dumps': 0, 'refs': {}, 'by_kind': {}}
+    stats = {'entities': 0, 'traits_compared': 0, 'dumps': 0, 'refs': {}, 'by_kind': {}, 'constant_values': 0}
     try:
         if run.prepare():
             cases = gen_cases(chk, run)
@@ -240,6 +296,7 @@ def run(chk):
                 rows, walk = G.parse_dump(out)
                 stats['dumps'] += 1
                 stats['entities'] += len(rows)
+                stats['constant_values'] += sum(1 for kv in rows.values() if 'const_value' in kv)
                 k = compare_case(chk, c, cxx, std, rows, walk, stats)
                 stats['traits_compared'] += k
                 chk.cov['evaluations'] += k
